@@ -517,6 +517,44 @@ mut('c01-set-child-shortcut', 'C01', 'C01.R.set_child_unconditional', tn, '''   
         // Set child according to given direction.
         match self.label.get_prefix_ordering(child_node.label) {''', 'set_child returns early for an already linked child (epoch bookkeeping skipped)', also=['C04'])
 
+# ---------------- round 2, second batch of seeds
+mut2('c03-snapshot-late', 'C03', 'C03.SNAP[key_history].first', [(dirf, '''        let current_azks = self.retrieve_azks().await?;
+        let current_epoch = current_azks.get_latest_epoch();
+        let mut user_data = self.storage.get_user_data(akd_label).await?.states;
+''', '''        let mut user_data = self.storage.get_user_data(akd_label).await?.states;
+        let current_azks = self.retrieve_azks().await?;
+        let current_epoch = current_azks.get_latest_epoch();
+''')], 'value states read before the epoch record (seed C03-r2-a)', also=['C13'])
+mut('c02-batch-dedup', 'C02', 'C02.S.batch_each_label', dirf, '''        for akd_label in akd_labels {
+            // Save lookup info for later use.''', '''        let mut seen = HashSet::new();
+        for akd_label in akd_labels {
+            if !seen.insert(akd_label) {
+                continue;
+            }
+            // Save lookup info for later use.''', 'repeated labels of a batch dropped (seed C02-r2-a; the assert then fails only for such batches)')
+mut('c01-absent-child', 'C01', 'C01.F.absent_child_value', tn, '''        None => TC::empty_node_hash(),''', '''        None => TC::empty_root_value(),''', 'absent child hashed with another constant (seed C01-r2-b)')
+mut('c03-with-capacity', 'C03', 'C03.S.limit_only_cuts', dirf, '''            HistoryParams::MostRecent(n) => user_data.into_iter().take(n).collect::<Vec<_>>(),''',
+    '''            HistoryParams::MostRecent(n) => {
+                let mut most_recent = Vec::with_capacity(n);
+                most_recent.extend(user_data.into_iter().take(n));
+                most_recent
+            }''', 'allocation sized by the request parameter (seed C03-r2-b)')
+mut('c04-audit-uncached', 'C04', 'C04.SNAP[audit].cached_view', dirf, '''        let current_azks = self.retrieve_azks().await?;
+        let current_epoch = current_azks.get_latest_epoch();
+
+        if audit_start_ep >= audit_end_ep {''', '''        let current_azks = Directory::<TC, S, V>::get_azks_from_storage(&self.storage, true).await?;
+        let current_epoch = current_azks.get_latest_epoch();
+
+        if audit_start_ep >= audit_end_ep {''', 'audit reads the epoch record past the cache (seed C04-r2-a)', also=['C13'])
+mut('c10-rollback-early', 'C10', 'C10.ORDER.rollback_transaction.releases', txn, '''        // rollback
+        self.mods.clear();''', '''        if self.mods.is_empty() {
+            // nothing to roll back
+            return Ok(());
+        }
+        // rollback
+        self.mods.clear();''', 'rollback of an empty log leaves the transaction open (seed C10-r2-b)', also=['C15', 'C12'])
+mut('c11-prev-epoch0', 'C11', 'C11.BIND.previous_skipped_only_if_new', tn, '''        let previous = if is_new {''', '''        let previous = if is_new || target_epoch == 0 {''', 'previous version skipped for a further reason (seed C11-r2-a)')
+
 out = [m for m in M if not m.get('disabled')]
 json.dump({'mutants': out}, open(os.path.join(os.path.dirname(os.path.abspath(__file__)), 'mutants.json'), 'w'), indent=1)
 print(len(out), 'mutants')
